@@ -69,6 +69,11 @@ def build(case):
         kw["eps"] = case["epsilon"]
     if case.get("finite_diff_rel_step") is not None:
         kw["finite_diff_rel_step"] = case["finite_diff_rel_step"]
+    if case.get("value_dtype"):
+        # an objective evaluated in reduced precision: the value comes back as a numpy float32 scalar (the differencing
+        # routine chooses its default relative step from the precision of the value)
+        f_, dt_ = kw["fun"], np.dtype(case["value_dtype"]).type
+        kw["fun"] = lambda x: dt_(f_(x))
     return kw, desc, p
 
 
@@ -126,7 +131,7 @@ def evaluate(case: Dict[str, Any]) -> Dict[str, Any]:
     out["tags"].append(f"active_at_solution={active}")
     # the Lean model of the differencing (step, adjustment to the bounds, stencil, combination)
     # against every gradient the routine computed in this run, bit for bit
-    if mode != "cs" and not run.rec.ambiguous:
+    if mode != "cs" and not run.rec.ambiguous and not case.get("value_dtype"):
         L = []
         exp = []
         eps64 = float(np.finfo(np.float64).eps)
@@ -164,7 +169,27 @@ def evaluate(case: Dict[str, Any]) -> Dict[str, Any]:
     # comparison with the exact-gradient run
     # (only runs stopped by the projected-gradient test are comparable: the relative-reduction
     # test says nothing about the distance to the solution)
-    if p.convex and case.get("compare") and not case.get("tweak") and kw.get("ftol", 1e-5) <= 1e-9:
+    if p.convex and case.get("value_dtype") and r is not None:
+        # an objective evaluated in single precision: the noise of the values (eps32 |f|) bounds what any differencing can
+        # reach and the line search may give up early, so the comparison is coarse — the run must realise at least half of
+        # the decrease the exact-gradient run (double-precision values) obtains from the same start, when that decrease
+        # is well above the noise. (Observed on the unchanged package: never below 0.8 in 1400 such runs.)
+        cE = {k: v for k, v in case.items() if k != "value_dtype"}
+        kwE, _, _ = build(cE)
+        kwE["jac"] = p.grad
+        E = Run(kwE).execute()
+        if E.exc is None and not E.nonfinite():
+            f0 = float(p.fun(np.clip(p.x0, p.lb, p.ub).copy()))
+            fe = float(E.result.fun)
+            ff = float(p.fun(np.asarray(r.x, dtype=float).copy()))
+            if f0 - fe > 1e-2 * (1.0 + abs(f0)):
+                frac = (f0 - ff) / (f0 - fe)
+                out["tags"].append("float32_valued_objective_compared=True")
+                if not frac >= 0.5:
+                    out["prop"].append({"what": f"{mode} run on an objective returning {case['value_dtype']} values realises only {frac:.2f} of the decrease "
+                                                "of the exact-gradient run (objective value far from the exact-gradient solution beyond the accuracy of the scheme)",
+                                        "key": "", "detail": {"f_start": f0, "f_fd": ff, "f_exact": fe, "msg_fd": r.message}})
+    elif p.convex and case.get("compare") and not case.get("tweak") and kw.get("ftol", 1e-5) <= 1e-9:
         kwE, _, _ = build(case)
         kwE["jac"] = p.grad
         E = Run(kwE).execute()
@@ -248,13 +273,19 @@ def run(tier: str, seed: int) -> int:
         if mode != "none":
             c["epsilon"] = e
             c["finite_diff_rel_step"] = rs
+        if i % 12 in (5, 6):
+            # '2-point' / '3-point' with the default step on an objective that returns single-precision values
+            c.update({"value_dtype": "float32", "epsilon": None, "finite_diff_rel_step": None, "families": ["qp", "qp_quartic", "qp_softplus"]})
+            c.pop("tweak", None)
+            feat["scaler"] = "none"
+            c["override"]["ftol"] = 0.0
         cases.append(c)
     return run_property(
         PROP, "harness.props.c16", THEOREMS, MODULES, cases, tier, seed,
         rule="runs in the four differencing modes on convex families and the package's benchmark functions, boxes with active bounds at the "
              "start / at the solution, narrow (1e-10..1e-6) and tiny-scale boxes, eps / rel_step settings: no exception, every evaluated point "
              "(stencils included) in the box exactly, nfev = objective calls, njev = gradients, value compared with the exact-gradient run on "
-             "convex problems (whatever message the finite-difference run carries, budgets apart), a fifth of the runs with a constant gradient scaler; replayed through the Lean driver model; non-trivial = at least one iteration",
+             "convex problems (whatever message the finite-difference run carries, budgets apart), a fifth of the runs with a constant gradient scaler, a sixth on objectives returning float32 values (default steps; at least half of the exact-gradient run's decrease); replayed through the Lean driver model; non-trivial = at least one iteration",
         assumptions=["objectives finite on the box", "value comparison only when the exact-gradient run stops on the projected-gradient test (ftol = 0) and the finite-difference run is not stopped by a budget"])
 
 
